@@ -84,7 +84,10 @@ func scanParams(p []byte) ([]hparam, bool) {
 		// name: up to '=' or ';'
 		st := i
 		for i < n && p[i] != '=' && p[i] != ';' {
-			if p[i] == '"' || p[i] == '\\' {
+			if p[i] == '"' || p[i] == '\\' || p[i] == ',' {
+				// (a comma in a name position: the library skips it in some states of a
+				// single-value header and keeps it in others - not something a digit-string
+				// property speaks about)
 				return nil, false
 			}
 			i++
@@ -234,7 +237,7 @@ func checkURIPort(what string, uri []byte) string {
 
 // C10Msg: every number reported by an accepted message equals the digits it
 // points to and is inside the documented range.
-func C10Msg(m *sipsp.PSIPMsg, buf []byte, err sipsp.ErrorHdr) string {
+func C10Msg(m *sipsp.PSIPMsg, buf []byte, err sipsp.ErrorHdr, params bool) string {
 	if err != 0 {
 		return ""
 	}
@@ -270,8 +273,10 @@ func C10Msg(m *sipsp.PSIPMsg, buf []byte, err sipsp.ErrorHdr) string {
 		f *sipsp.PFromBody
 	}{{"From", &pv.From}, {"To", &pv.To}} {
 		if x.f.Parsed() {
-			if d := checkNAParams(x.n, x.f, buf); d != "" {
-				return d
+			if params {
+				if d := checkNAParams(x.n, x.f, buf); d != "" {
+					return d
+				}
 			}
 			if d := checkURIPort(x.n, x.f.URI.Get(buf)); d != "" {
 				return d
@@ -280,8 +285,10 @@ func C10Msg(m *sipsp.PSIPMsg, buf []byte, err sipsp.ErrorHdr) string {
 	}
 	for i := 0; i < pv.Contacts.VNo() && i < len(pv.Contacts.Vals); i++ {
 		v := &pv.Contacts.Vals[i]
-		if d := checkNAParams(fmt.Sprintf("Contacts.Vals[%d]", i), v, buf); d != "" {
-			return d
+		if params {
+			if d := checkNAParams(fmt.Sprintf("Contacts.Vals[%d]", i), v, buf); d != "" {
+				return d
+			}
 		}
 		if !v.Star {
 			if d := checkURIPort(fmt.Sprintf("Contacts.Vals[%d]", i), v.URI.Get(buf)); d != "" {
@@ -298,7 +305,7 @@ func C10Msg(m *sipsp.PSIPMsg, buf []byte, err sipsp.ErrorHdr) string {
 }
 
 // C10Sub: same for the stand-alone drivers of the numeric sub-parsers.
-func C10Sub(cfg sut.Cfg, d sut.Driver, buf []byte, err sipsp.ErrorHdr) string {
+func C10Sub(cfg sut.Cfg, d sut.Driver, buf []byte, err sipsp.ErrorHdr, params bool) string {
 	switch x := d.(type) {
 	case *sut.CSeqD:
 		if err == 0 {
@@ -313,8 +320,10 @@ func C10Sub(cfg sut.Cfg, d sut.Driver, buf []byte, err sipsp.ErrorHdr) string {
 		}
 	case *sut.NameAddrD:
 		if err == 0 || err == sipsp.ErrHdrMoreValues {
-			if s := checkNAParams("value", &x.F, buf); s != "" {
-				return s
+			if params {
+				if s := checkNAParams("value", &x.F, buf); s != "" {
+					return s
+				}
 			}
 			if !x.F.Star {
 				return checkURIPort("value", x.F.URI.Get(buf))
